@@ -110,7 +110,7 @@ PROPS = {
     },
     "C16": {
         "module": "BiscuitModel.Props.C16",
-        "streams": ["versions"],
+        "streams": ["versions", "chain"],
         "level_text": "Lean 4 theorems re-checked on every run against detector tables and compatibility ladder regenerated from datalog/mod.rs (Gen/Detectors.lean): bin33_table, bin31_table, un33_table, closure_table, check_kind_table, term33_detected (the code's detectors recognise exactly the features the specification puts in 3.1 / 3.3, for every operator and for terms nested to any depth), declared_version_spec (for EVERY block the builders declare exactly the lowest version covering its contents), third_party_at_least_32, spec_version_values, compatible_sound and gate_sound (whatever passes the load gate declares a version in [3,6], at least the specification's version for its contents, and at least 3.2 if third-party), builder_blocks_pass_own_gate, chained_when_needed and never_back (signature scheme). Tie: the complete finite enumeration - one block per operator (in a check and in a rule), per unary, per term kind incl. nested null/array/map in facts, rule heads, rule bodies, check bodies and expression values, per check kind, per scope position - built through the builders as authority / appended / third-party block (declared version and signature version compared), and every one of them re-declared with versions 0..8, correctly re-signed as first- and third-party block, then loaded (gate compared); plus generated blocks.",
         "level_note": "Trusted: the translator (checked by the stream: the model's tables decide the same blocks as the running code), harness signing fixture (payload layouts used only to craft inputs). The key-algorithm sequences of the signature-version rule are tied by the chain stream (C02).",
         "rule": "versions stream: exhaustive over the feature list x {authority, appended, third-party} and x declared versions 0..8 x {first, third party}; plus seeded generated blocks; non-trivial = every case except the plain-fact baseline; distinct = distinct case JSON",
@@ -311,6 +311,10 @@ def cmp_chain(case, impl, model):
             return "re-serializing the deserialized token does not give identical bytes"
         if impl.get("wire_bytes") != model.get("wire_bytes"):
             return "bytes of to_vec() differ from the model's wire encoding"
+        if "sig_versions" in model:
+            actual = [case["subject"]["authority"]["version"] or 0] + [b["version"] or 0 for b in case["subject"]["blocks"]]
+            if actual != model["sig_versions"]:
+                return "signature versions of the blocks %s differ from the rule (third-party, 3.3 content or non-ed25519 key => 1, never back): %s" % (actual, model["sig_versions"])
         post = impl.get("post", {})
         if post.get("failed"):
             return "signature does not verify over the payload layout of the model: %s" % post["failed"]
@@ -323,6 +327,7 @@ POST = {"chain": "chainpost"}
 
 # which cases of a shared stream are in the scope of a property (others are run but not judged)
 FILTERS = {
+    ("C16", "chain"): lambda case: case.get("op") == "chain" and case.get("mutation") == "none",
     ("C02", "chain"): lambda case: case.get("op") == "chain" and case.get("mutation") == "none",
     ("C08", "chain"): lambda case: case.get("op") == "sealops" or ("seal" in (case["subject"].get("proof") or {}) and "ecdsa" not in case.get("mutation", "")),
     ("C01", "chain"): lambda case: case.get("op") == "chain",
